@@ -131,6 +131,9 @@ func Check(w *Workload, e *Expect, o, base *Outcome, faulty bool) []Violation {
 		for _, i := range e.Included {
 			if w.Files[i].Kind == "sysl" {
 				wantApps = append(wantApps, fmt.Sprintf("F%d", i))
+				if w.Files[i].Layout&32 != 0 {
+					wantApps = append(wantApps, fmt.Sprintf("importer%d", i))
+				}
 				if w.Files[i].Layout&16 != 0 {
 					wantApps = append(wantApps, fmt.Sprintf("import Gateway%d", i))
 				}
